@@ -91,6 +91,20 @@ def txLoop {τ} (T : TxM τ) : Nat → τ → Nat → Option (List Nat) → Byte
     let q' := q ++ (T.cur td.1).take n
     if T.again a n then txLoop T fuel t' (mb - n) kg.2 q' else (t', q')
 
+/-- a receiver alone: a list of `DoInput` calls on a transport that already holds the bytes -/
+def rxCalls {σ υ} (R : RxM σ υ) : σ → List Call → Bytes → List υ → σ × Bytes × List υ
+  | s, [], q, acc => (s, q, acc)
+  | s, c :: cs, q, acc =>
+    let r := rxCall R s c q
+    rxCalls R r.1 cs r.2.1 (acc ++ r.2.2)
+
+/-- a sender alone: a list of `DoOutput` calls; the transport collects what is written -/
+def txCalls {τ} (T : TxM τ) (fuel : τ → Call → Nat) : τ → List Call → Bytes → τ × Bytes
+  | t, [], q => (t, q)
+  | t, c :: cs, q =>
+    let r := txLoop T (fuel t c) t c.maxBytes c.grants q
+    txCalls T fuel r.1 cs r.2
+
 /-! ## the system: any interleaving of queueing, output calls and input calls -/
 
 structure Gw (τ σ ι υ : Type) where
